@@ -95,6 +95,7 @@ def ctor(repo: Repo, tier):
             cc = CtorChecker(repo, R=R, max_n=2 if tier == "quick" else 3)
             for cls in CLASSES:
                 cc.check_time_slice(cls)
+                cc.check_time_slice_selfloop(cls)
                 cc.check_generate_snapshots(cls)
                 cc.check_node_link_data(cls)
             cc.check_conversion("DynGraph", "to_directed", "DynDiGraph")
